@@ -184,7 +184,11 @@ def check(case):
         from .. import stubs
         from ..plain import parse_newick
 
-        data = dict(given, costs=base["costs"])
+        cli_costs = dict(base["costs"], DUPLICATION=3 + case.get("_move", 0) % 3, FULL_LOSS=2 - case.get("_move", 0) % 3)
+        data = dict(given, costs=cli_costs)
+        if case.get("_move", 0) % 2 == 0:
+            # the input may declare leaf syntenies: a plain algorithm ignores them (with a warning), nothing else changes
+            data["leaf_syntenies"] = {leaf: ["g0"] for leaf in inst.oleaves}
         if case["_cli"] == "partial" and not unnamed and not leaflike:
             # partially labelled: ancestors keep generated-looking labels (O<k>/S<k>) in reverse pre-order and every other
             # one, starting with the root, is left unnamed - the labels handed out must avoid the ones further down
@@ -202,7 +206,7 @@ def check(case):
                     if not t.is_leaf(n) and t.name[n] == "":
                         t.name[n] = "NoName"
                 data[key] = t.to_newick()
-        status, lines, printed, err, _raw = stubs.cli_reconcile(data, "lca", "any", stale_output=True)
+        status, lines, printed, err, _raw = stubs.cli_reconcile(data, "lca", "any", stale_output=True, decoy_file_costs=True)
         if status != 0 or len(lines) != 1:
             raise Violation("cli.lca.status-or-line-count", observed={"status": status, "lines": len(lines), "stderr": err[-300:]}, expected="status 0, one line")
         sol = json.loads(lines[0])
@@ -214,8 +218,8 @@ def check(case):
         got = {oname[oc[k]]: sname[sc[v]] for k, v in sol["object_species"].items()}
         if got != expected:
             raise Violation("cli.lca.mapping!=parent-chain-lca", observed=got, expected=expected)
-        if printed != inst.rec_cost(expected):
-            raise Violation("cli.lca.minimum-cost", observed=printed, expected=inst.rec_cost(expected))
+        if printed != inst.rec_cost(expected, cli_costs):
+            raise Violation("cli.lca.minimum-cost", observed=printed, expected=inst.rec_cost(expected, cli_costs), extra={"cost_options": cli_costs})
     _pat, lca_counts = inst.rec_profile(m)
     if lca_counts["T"]:
         raise Violation("lca.contains-transfer", observed=lca_counts, expected="no transfer")
